@@ -84,8 +84,9 @@ variable {α : Type} [Field α] [LinearOrder α] [IsStrictOrderedRing α]
 
 /-- Veitch: an update made after an accepted step makes every width strictly larger; one
     made after a rejected step makes none larger, and strictly smaller unless that would
-    make it negative (the guard).  No update (outside the window, or the proposal did not
-    jump at this iteration): nothing changes.  Widths stay `≥ 0`. -/
+    make it negative or zero (the guard `newsigmas <= 0`, decided per parameter).  No update
+    (outside the window, or the proposal did not jump at this iteration): nothing changes.
+    Widths stay `≥ 0` (and positive ones positive: `C14_veitch_pos`). -/
 theorem C13_veitch_dir {n : Nat} (c : VeitchCfg α n) {a a' : Ad (Vector α n)} {acc : Bool}
     (hw : a.clock.cfg.window = .veitch) (hg : VeitchGainOK a.clock.cfg.T c.gain)
     (hxi : 0 < c.xi ∧ c.xi < 1) (hd : ∀ i : Fin n, 0 < c.deltas[i])
@@ -93,7 +94,7 @@ theorem C13_veitch_dir {n : Nat} (c : VeitchCfg α n) {a a' : Ad (Vector α n)} 
     ((a.clock.callJump && a.clock.inWindow) = true →
       (acc = true → ∀ i : Fin n, a.num[i] < a'.num[i]) ∧
       (acc = false → ∀ i : Fin n, a'.num[i] ≤ a.num[i] ∧
-        (0 ≤ a.num[i] + -c.xi * c.gain a.clock.dkUpdate * c.deltas[i] / 10 →
+        (0 < a.num[i] + -c.xi * c.gain a.clock.dkUpdate * c.deltas[i] / 10 →
           a'.num[i] < a.num[i]))) ∧
     ((a.clock.callJump && a.clock.inWindow) = false → a'.num = a.num) ∧
     (∀ i : Fin n, 0 ≤ a'.num[i]) := by
@@ -371,7 +372,7 @@ theorem C13_veitch_sustained_accept {n : Nat} (c : VeitchCfg α n) (hxi : 0 < c.
   exact ⟨this.1, this.2.2⟩
 
 /-- Veitch, every step rejected: no width ever increases (each update strictly decreases it
-    until the non-negativity guard would be violated, `C13_veitch_dir`). -/
+    until the positivity guard would be violated, `C13_veitch_dir`). -/
 theorem C13_veitch_sustained_reject {n : Nat} (c : VeitchCfg α n) (hxi : 0 < c.xi ∧ c.xi < 1)
     (hd : ∀ i : Fin n, 0 < c.deltas[i]) (hs : List Bool) (hall : ∀ x ∈ hs, x = false)
     (a a' : Ad (Vector α n)) (hw : a.clock.cfg.window = .veitch)
